@@ -240,6 +240,15 @@ Theorem C16_reflection : forall l out inp x,
 Proof. intros. split; [apply nodup_uid_iff|]. split; [apply mem_uid_iff|apply subset_b_iff]. Qed.
 Print Assumptions C16_reflection.
 
+(* sessions: one operator instance whose shared parameters object is changed in place between
+   calls.  The operators are functions of the parameters in force at the call (the model carries
+   no state from call to call), so every call of every session satisfies its contract for the
+   CURRENT parameters - e.g. elitism that was not applicable at an earlier call keeps the archive
+   head as soon as it applies *)
+Theorem C16_session_contract : forall calls, Forall2 call_ok calls (run_session calls).
+Proof. exact session_contract. Qed.
+Print Assumptions C16_session_contract.
+
 (* ---------- non-vacuity: the hypotheses are satisfiable by non-trivial states ---------- *)
 Definition e_a := Build_ind 0 (Single (Some (1 # 1)%Q) []).
 Definition e_b := Build_ind 1 (Single (Some (1 # 2)%Q) []).
@@ -287,3 +296,10 @@ Proof.
   intros a b Ha Hb. simpl in Ha, Hb.
   destruct Ha as [<-|[<-|[<-|[<-|[<-|[]]]]]], Hb as [<-|[<-|[<-|[<-|[<-|[]]]]]]; simpl; intros E; try reflexivity; discriminate.
 Qed.
+(* a session in which elitism does not apply at the first call (pop_size 3 < 5) and applies at
+   the second one (pop_size 8): the head e_b is kept then *)
+Example ex_session :
+  run_session [CallElitism (Build_eparams KeepNBest false 3 5) [] [e_b] [e_a; e_c];
+               CallElitism (Build_eparams KeepNBest false 8 5) [] [e_b] [e_a; e_c]]
+  = [Some [e_a; e_c]; Some [e_b; e_a]].
+Proof. vm_compute. reflexivity. Qed.
